@@ -40,14 +40,15 @@ def r1(run):
         run.missing("%s|bodies" % C.READ, "could not locate main/history/live bodies of Store::read (main=%s history=%s live=%s)" % (main, hist, live))
         return
     sub = under[0]
+    sub_body, sub_bb = q.effective_site(run.facts, sub)   # `should_follow.then(|| tx.subscribe())` happens at the `then` call
     hs, hagg = spawn_of(main, hist, C.THREAD_SPAWN, C.TOKIO_SPAWN, C.TOKIO_SPAWN_BLOCKING)
     ls, lagg = spawn_of(main, live, C.TOKIO_SPAWN, C.THREAD_SPAWN)
-    run.ob("%s|subscribe-in-read-body" % C.READ, sub.body is main, sub.sp,
-           "the subscription is taken in the read body itself, not in a spawned task (%s)" % sub.body.def_, reason="subscribe-after-scan-may-start")
+    run.ob("%s|subscribe-in-read-body" % C.READ, sub_body is main, sub.sp,
+           "the subscription is taken in the read body itself, not in a spawned task (%s)" % sub_body.def_, reason="subscribe-after-scan-may-start")
     if hs is None or ls is None:
         run.missing("%s|launches" % C.READ, "history / live launch sites not found in the read body", main.sp)
         return
-    run.ob("%s|subscribe-not-after-scan-launch" % C.READ, sub.body is main and not q.reaches(main, hs.bb, sub.bb) and hs.bb != sub.bb, sub.sp,
+    run.ob("%s|subscribe-not-after-scan-launch" % C.READ, sub_body is main and not q.reaches(main, hs.bb, sub_bb) and hs.bb != sub_bb, sub.sp,
            "the subscription cannot be reached from the launch of the historical scan (subscribe happens-before scan)", reason="subscribe-after-scan-may-start")
     # whenever the read follows, the subscription precedes the scan launch: every path to the launch that follows passes subscribe or the not-following edge
     cap, op = capture_operand(lagg, live, lambda c, t: "tokio::sync::broadcast::Receiver" in t)
@@ -55,6 +56,9 @@ def r1(run):
     if op is not None:
         for o in q.origins(op):
             if o[0] == "call" and q.same_call(o[1], sub):
+                ok = True
+            # through an immediately invoked closure: `flag.then(|| subscribe())`
+            if o[0] == "call" and o[1].fn in q.IMMEDIATE_COMBINATORS and o[1].body is sub_body and o[1].bb == sub_bb:
                 ok = True
     run.ob("%s|live-polls-that-subscription" % C.READ, ok, ls.sp, "the receiver moved into the live task originates from that subscribe call", reason="live-uses-other-subscription")
     recvs = [c for c in q.live_calls(live, C.BROADCAST_RECV)]
